@@ -25,17 +25,19 @@ def norm_slice(src):
     parameters are the block's free variables"""
     import re
     a = src.find("const uint32_t k = order[dim] + 1;")
-    m = re.search(r"norm \*= -1;", src[a:]) if a >= 0 else None
+    m = re.search(r"std::unique_ptr<float\[\]>\s+coefficients\(new float\[arraysize\]\);", src[a:]) if a >= 0 else None
     if a < 0 or not m:
         from tools.extract import ExtractionError
         raise ExtractionError("normalisation slice anchors not found in convolve.h")
-    body = src[a:a + m.end()]
+    body = src[a:a + m.start()]
     from tools.extract import strip_comments
     return body, ("double vp_norm_slice(const uint32_t* order, uint32_t dim, size_t n_conv_knots)\n{\n" + strip_comments(body) + "\n\treturn norm;\n}\n")
 
 def norm_contract(KMAX, QMAX):
     k = "(order[dim] + 1)"; q = "(n_conv_knots - 1)"
-    spec = "((%s %% 2 != 0) ? -1.0 : 1.0) * (((double)(vp_fact[%s]*vp_fact[%s-1])) / ((double)vp_fact[%s+%s-1]))" % (k, q, k, k, q)
+    # q!(k-1)!/(k+q-1)!, positive: a non-negative table convolved with a non-negative unit-area kernel stays non-negative
+    # (the sign and the value are tied to the definition of convolution by the exact-oracle obligations of checks/c14_exact.py)
+    spec = "(((double)(vp_fact[%s]*vp_fact[%s-1])) / ((double)vp_fact[%s+%s-1]))" % (q, k, k, q)
     return ("double vp_norm_slice(const uint32_t* order, uint32_t dim, size_t n_conv_knots)\n"
             "__CPROVER_requires(dim < 8)\n"
             "__CPROVER_requires(__CPROVER_is_fresh(order, 8*sizeof(uint32_t)))\n"
